@@ -216,7 +216,7 @@ def _format_default_for_tagged(
         case Primitive.float64:
             result = "f64(0.0)"
         case Primitive.bool_:
-            result = "false"
+            result = "False"
         case Primitive.error_code:
             result = "ErrorCode.none"
         case (
